@@ -603,4 +603,208 @@ theorem read_keeps (s : Machine) (h : H) (a b : Nat) (hb : b < 65536) :
   · have : readEff h s a = s := by cases h <;> first | rfl | exact absurd rfl hh
     rw [this]; exact ⟨rfl, rfl, rfl, rfl⟩
 
+/-- what a bus write preserves: the TIMA reload flag, "PPU mode in 0..3", and (except for FF46) the DMA flag -/
+theorem write_inv (s s' : Machine) (a v : Nat) (ha : a < 65536) (hw : busWrite W s a v = some s') :
+    s'.timer.reloading = s.timer.reloading ∧ (s.ppu.mode < 4 → s'.ppu.mode < 4)
+    ∧ (a ≠ 0xff46 → s'.oam.dmaRunning = s.oam.dmaRunning) := by
+  have hra := range_write ha
+  unfold busWrite at hw
+  generalize route W a = wa at hw hra
+  cases wa <;> simp only [writeH, ApuStub.write, Option.map_eq_some_iff, Option.some.injEq] at hw
+  case panic | unknown | ff => cases hw
+  case mbc | vram | wram | echo | hram => obtain ⟨_, _, rfl⟩ := hw; exact ⟨rfl, id, fun _ => rfl⟩
+  case oam =>
+    obtain ⟨o, ho, rfl⟩ := hw
+    refine ⟨rfl, id, fun _ => ?_⟩
+    have hsh := Oam.cpuWrite_shape ho
+    by_cases hlo : (BitVec.ofNat 16 a).toNat < 0xfea0
+    · obtain ⟨hi, e⟩ := hsh.1 hlo
+      show o.dmaRunning = _
+      rw [e]; exact (writeFlags_dma _).1
+    · show o.dmaRunning = _
+      rw [hsh.2 (by omega)]; exact (writeFlags_dma _).1
+  case div | tac =>
+    subst hw
+    exact ⟨by simp only [Timer.writeDIV, Timer.reset, Timer.writeTAC, (cfe_fields _).2.2.2], id, fun _ => rfl⟩
+  case tima | tma =>
+    subst hw
+    refine ⟨?_, id, fun _ => rfl⟩
+    simp only [Timer.writeTIMA, Timer.writeTMA]; split <;> rfl
+  case lcdc =>
+    subst hw
+    refine ⟨rfl, fun hm => ?_, fun _ => (lcdc_oam _ _ _).1⟩
+    simp only [Lcd.wLCDC, Lcd.lcdcSwitch, Lcd.enable, Lcd.disable]
+    split
+    · exact (by decide : (2 : Nat) < 4)
+    · split
+      · exact (by decide : (0 : Nat) < 4)
+      · exact hm
+  case dma => subst hw; exact ⟨rfl, id, fun h => absurd (rng_dma hra) h⟩
+  all_goals (first | (obtain ⟨_, _, rfl⟩ := hw) | subst hw)
+  all_goals exact ⟨rfl, id, fun _ => rfl⟩
+
+/-- a write to an address in scope never panics (outside the TIMA reload cycle, PPU mode in 0..3) -/
+theorem write_total (s : Machine) (a v : Nat) (ha : inScope a) (hv : v < 256)
+    (hrel : s.timer.reloading = false) (hm : s.ppu.mode < 4) : ∃ s', busWrite W s a v = some s' := by
+  by_cases ho : 0xfe00 ≤ a ∧ a < 0xff00
+  · have ht := toNat16 (a := a) (by omega)
+    unfold busWrite
+    rw [rW_oam ho.1 ho.2]
+    simp only [writeH, Oam.cpuWrite, ht]
+    by_cases hlo : a < 0xfea0
+    · have hi : Oam.sub16 a 0xfe00 < 160 := by rw [sub16_eq ho.1 (by omega)]; omega
+      simp only [if_pos hlo, Oam.st_eq hi, Option.map_some]; exact ⟨_, rfl⟩
+    · simp only [if_neg hlo, Option.map_some]; exact ⟨_, rfl⟩
+  · obtain ⟨s', _, hw, _⟩ := readback_all s a v ha hv ⟨fun h => absurd h ho, fun _ => hrel, fun _ => hm⟩
+    exact ⟨s', hw⟩
+
+/-! ### the history form -/
+
+theorem canon_cases (b : Nat) :
+    (0xe000 ≤ b ∧ b < 0xfe00 ∧ canon b = b - 0x2000) ∨ (¬ (0xe000 ≤ b ∧ b < 0xfe00) ∧ canon b = b) := by
+  by_cases h : 0xe000 ≤ b ∧ b < 0xfe00
+  · exact Or.inl ⟨h.1, h.2, by simp only [canon, if_pos h]⟩
+  · exact Or.inr ⟨h, by simp only [canon, if_neg h]⟩
+
+theorem canon_scope {b : Nat} (hb : inScope b) : inScope (canon b) := by
+  simp only [inScope, cartAddr, apuAddr] at hb ⊢
+  rcases canon_cases b with ⟨h1, h2, e⟩ | ⟨h, e⟩ <;> rw [e] <;> omega
+
+theorem rule_canon (a : Nat) : ruleOf (canon a) = ruleOf a := by
+  rcases canon_cases a with ⟨h1, h2, e⟩ | ⟨h, e⟩
+  · rw [e, plain_rule (by simp only [plainAddr]; omega), plain_rule (by simp only [plainAddr]; omega)]
+  · rw [e]
+
+/-- what the start state reads at each cell -/
+def initOf (s : Machine) (c : Nat) : Nat := (peek R s c).getD 0
+
+/-- the reads of the model meet the expectations of the specification, one by one -/
+def Agrees : List Nat → List Expect → Prop
+  | [], [] => True
+  | x :: xs, e :: es => e.holds x ∧ Agrees xs es
+  | _, _ => False
+
+/-- the simulation relation between the abstract map and a machine state -/
+structure Rel (init : Nat → Nat) (x : Abs) (s : Machine) : Prop where
+  rel : s.timer.reloading = false
+  mode : s.ppu.mode < 4
+  dma : x.dma = false → s.oam.dmaRunning = false
+  cells : ∀ b, inScope b → ∃ r, peek R s b = some r ∧ (expect init x b).holds r
+
+theorem rel_start (s : Machine) (h1 : s.timer.reloading = false) (h2 : s.ppu.mode < 4)
+    (h3 : s.oam.dmaRunning = false) : Rel (initOf s) Abs.start s := by
+  refine ⟨h1, h2, fun _ => h3, fun b hb => ?_⟩
+  obtain ⟨r, hr⟩ := peek_total s b hb
+  refine ⟨r, hr, ?_⟩
+  have : expect (initOf s) Abs.start b = .exact (initOf s (canon b)) := by
+    simp only [expect, Abs.start, Bool.false_eq_true, false_and, if_false, cellExpect]
+  rw [this]
+  show r = initOf s (canon b)
+  simp only [initOf, ← peek_canon, hr, Option.getD_some]
+
+theorem rel_read (init : Nat → Nat) (x : Abs) (s : Machine) (a : Nat) (h : Rel init x s) (ha : inScope a) :
+    ∃ r s', busRead R s a = some (r, s') ∧ (expect init x a).holds r ∧ Rel init x s' := by
+  obtain ⟨r, hr, hh⟩ := h.cells a ha
+  refine ⟨r, readEff (route R a) s a, ?_, hh, ?_⟩
+  · unfold busRead; unfold peek at hr; rw [hr]; rfl
+  · have hk := fun b hb => read_keeps s (route R a) a b hb
+    have hk0 := hk 0 (by omega)
+    refine ⟨by rw [hk0.2.1]; exact h.rel, by rw [hk0.2.2.1]; exact h.mode,
+      fun hx => by rw [hk0.2.2.2]; exact h.dma hx, fun b hb => ?_⟩
+    rw [(hk b hb.1).1]
+    exact h.cells b hb
+
+theorem rel_write (init : Nat → Nat) (x : Abs) (s : Machine) (a v : Nat) (h : Rel init x s) (ha : inScope a)
+    (hv : v < 256) : ∃ s', busWrite W s a v = some s' ∧ Rel init (x.write a v) s' := by
+  obtain ⟨s', hw⟩ := write_total s a v ha hv h.rel h.mode
+  have hinv := write_inv s s' a v ha.1 hw
+  have hna : ¬ apuAddr a := ha.2.2
+  refine ⟨s', hw, ⟨by rw [hinv.1]; exact h.rel, hinv.2.1 h.mode, fun hx => ?_, fun b hb => ?_⟩⟩
+  · -- no transfer was started, now or before
+    simp only [Abs.write, Bool.or_eq_false_iff, decide_eq_false_iff_not] at hx
+    rw [hinv.2.2 hx.2]; exact h.dma hx.1
+  · obtain ⟨r', hr'⟩ := peek_total s' b hb
+    by_cases hA : (x.write a v).dma = true ∧ 0xfe00 ≤ b ∧ b < 0xff00
+    · exact ⟨r', hr', by simp only [expect, if_pos hA]; trivial⟩
+    · have hE : expect init (x.write a v) b
+          = cellExpect init (canon b) (if canon b = canon a then .written v
+              else if footprint a (canon b) then .unknown else x.cell (canon b)) := by
+        unfold expect
+        rw [if_neg hA]
+        rfl
+      rw [hE]
+      by_cases hB1 : canon b = canon a
+      · -- the written cell itself (through either of its addresses)
+        rw [if_pos hB1]
+        have hpk : peek R s' b = peek R s' a := by rw [peek_canon s' b, peek_canon s' a, hB1]
+        have hready : Ready s a := by
+          refine ⟨fun ho => ?_, fun _ => h.rel, fun _ => h.mode⟩
+          have hbo : 0xfe00 ≤ b ∧ b < 0xff00 := by
+            rcases canon_cases b with ⟨_, _, e1⟩ | ⟨_, e1⟩ <;> rcases canon_cases a with ⟨_, _, e2⟩ | ⟨_, e2⟩ <;> omega
+          have hd : (x.write a v).dma = false := by
+            cases hdd : (x.write a v).dma
+            · rfl
+            · exact absurd ⟨hdd, hbo⟩ hA
+          simp only [Abs.write, Bool.or_eq_false_iff] at hd
+          exact h.dma hd.1
+        obtain ⟨s2, r, hw2, hp2, hh⟩ := readback_all s a v ha hv hready
+        rw [hw] at hw2; cases hw2
+        refine ⟨r, by rw [hpk]; exact hp2, ?_⟩
+        show (ruleOf (canon b)).holds v r
+        rw [hB1, rule_canon]; exact hh
+      · rw [if_neg hB1]
+        by_cases hB2 : footprint a (canon b)
+        · rw [if_pos hB2]; exact ⟨r', hr', trivial⟩
+        · -- untouched: same expectation as before, and the frame lemma says it reads the same
+          rw [if_neg hB2]
+          have hcb := canon_scope hb
+          have hfr : peek R s' b = peek R s b := by
+            rw [peek_canon s' b, peek_canon s b]
+            exact frame s s' a v (canon b) ha.1 hcb.1 hna hw hB2
+          obtain ⟨r, hr, hh⟩ := h.cells b hb
+          refine ⟨r, by rw [hfr]; exact hr, ?_⟩
+          have hAold : ¬ (x.dma = true ∧ 0xfe00 ≤ b ∧ b < 0xff00) := by
+            intro hc
+            apply hA
+            refine ⟨?_, hc.2⟩
+            simp only [Abs.write, hc.1, Bool.true_or]
+          simp only [expect, if_neg hAold] at hh
+          exact hh
+
+/-- per-operation simulation, by induction over the history -/
+theorem refines_aux (init : Nat → Nat) : ∀ (ops : List BusOp) (x : Abs) (s : Machine), Rel init x s →
+    (∀ op ∈ ops, admissible op) →
+    ∃ outs s', runOps R W s ops = some (outs, s') ∧ Agrees outs (reads init x ops) := by
+  intro ops
+  induction ops with
+  | nil => intro x s _ _; exact ⟨[], s, rfl, trivial⟩
+  | cons op ops ih =>
+    intro x s h hall
+    have hop := hall op (List.mem_cons_self ..)
+    have hrest : ∀ o ∈ ops, admissible o := fun o ho => hall o (List.mem_cons_of_mem _ ho)
+    cases op with
+    | rd a =>
+      obtain ⟨r, s1, hrd, hh, h1⟩ := rel_read init x s a h hop
+      obtain ⟨outs, s2, hrun, hag⟩ := ih x s1 h1 hrest
+      refine ⟨r :: outs, s2, ?_, ?_⟩
+      · simp only [runOps, hrd, Option.bind_some, hrun, Option.map_some]
+      · exact ⟨hh, hag⟩
+    | wr a v =>
+      obtain ⟨s1, hwr, h1⟩ := rel_write init x s a v h hop.1 hop.2
+      obtain ⟨outs, s2, hrun, hag⟩ := ih (x.write a v) s1 h1 hrest
+      refine ⟨outs, s2, ?_, hag⟩
+      simp only [runOps, hwr, Option.bind_some, hrun]
+
+/-- C06, history form.  For EVERY machine state with no OAM transfer running, outside the TIMA reload cycle and
+    with a PPU mode in 0..3 (LCD on or off), and EVERY sequence of bus reads and writes to addresses outside
+    the cartridge windows and FF10–FF3F (no clock ticks in between): no access panics, and every value read is
+    the one the abstract map of the specification allows – the last value written to the cell behind the
+    address (through either of its echo addresses), masked by the rule of the address; the start value if the
+    cell was never written; anything if a later write had the cell in its documented footprint (C07), or for
+    OAM once a transfer was started. -/
+theorem c06_refines (s : Machine) (ops : List BusOp) (h1 : s.timer.reloading = false) (h2 : s.ppu.mode < 4)
+    (h3 : s.oam.dmaRunning = false) (hops : ∀ op ∈ ops, admissible op) :
+    ∃ outs s', runOps R W s ops = some (outs, s') ∧ Agrees outs (reads (initOf s) Abs.start ops) :=
+  refines_aux (initOf s) ops Abs.start s (rel_start s h1 h2 h3) hops
+
 end Tetro.C06
